@@ -209,16 +209,23 @@ func (rc *refCompiler) entity(f *File, e *Entity) {
 	if base == "" {
 		base = "/" + strings.ReplaceAll(pkg, ".", "/") + "/" + snake
 	}
-	var pk []CField
-	pkPath := ""
+	var pk, shard []CField
+	pkPath, shardPath := "", ""
 	n := int32(1)
 	for _, k := range e.Keys {
-		if k.isPrimary() {
+		// primary keys and shard keys (primary or not) address one entity; shard keys also scope the list
+		if k.isPrimary() || k.ShardKey {
 			cf := rc.field(k.Field, spkg+"."+name+"GetRequest", sfile, nil)
 			cf.Num = n
 			n++
 			pk = append(pk, cf)
 			pkPath += "/{" + cf.Name + "}"
+			if k.ShardKey {
+				sf := cf
+				sf.Num = int32(len(shard) + 1)
+				shard = append(shard, sf)
+				shardPath += "/{" + cf.Name + "}"
+			}
 		}
 	}
 	smsg := func(n string) string { return spkg + "." + name + n }
@@ -233,7 +240,9 @@ func (rc *refCompiler) entity(f *File, e *Entity) {
 	query := CField{Name: "query", JSON: "query", Type: "message", TypeName: "j5.list.v1.QueryRequest"}
 	pageResp := CField{Name: "page", JSON: "page", Num: 2, Type: "message", TypeName: "j5.list.v1.PageResponse"}
 	num := func(f CField, n int32) CField { f.Num = n; return f }
-	rc.c.Msgs[smsg("ListRequest")] = &CMsg{FullName: smsg("ListRequest"), File: sfile, Fields: []CField{num(page, 1), num(query, 2)}}
+	listReq := append([]CField{}, shard...)
+	listReq = append(listReq, num(page, int32(len(shard)+1)), num(query, int32(len(shard)+2)))
+	rc.c.Msgs[smsg("ListRequest")] = &CMsg{FullName: smsg("ListRequest"), File: sfile, Fields: listReq}
 	listState := stateField
 	listState.Repeated = true
 	rc.c.Msgs[smsg("ListResponse")] = &CMsg{FullName: smsg("ListResponse"), File: sfile, Fields: []CField{listState, pageResp}}
@@ -244,7 +253,7 @@ func (rc *refCompiler) entity(f *File, e *Entity) {
 		{Name: "events", JSON: "events", Num: 1, Type: "message", TypeName: msg("Event"), Repeated: true}, pageResp}}
 	rc.c.Svcs[spkg+"."+name+"QueryService"] = &CSvc{FullName: spkg + "." + name + "QueryService", File: sfile, Methods: []CMethod{
 		{Name: name + "Get", In: smsg("GetRequest"), Out: smsg("GetResponse"), Verb: "get", Path: base + "/q" + pkPath},
-		{Name: name + "List", In: smsg("ListRequest"), Out: smsg("ListResponse"), Verb: "get", Path: base + "/q"},
+		{Name: name + "List", In: smsg("ListRequest"), Out: smsg("ListResponse"), Verb: "get", Path: base + "/q" + shardPath},
 		{Name: name + "Events", In: smsg("EventsRequest"), Out: smsg("EventsResponse"), Verb: "get", Path: base + "/q" + pkPath + "/events"},
 	}}
 	for _, c := range e.Commands {
@@ -321,6 +330,12 @@ func EntityCases(thorough bool) []*Case {
 			return []*EntityKey{{Field: fld("otherId", T(TKeyID62)), Primary: tr(false)}, {Field: fld(id, T(TKeyID62)), Primary: tr(true)}}
 		case 4:
 			return []*EntityKey{{Field: fld(id, T(TKeyID62)), Primary: tr(true)}, {Field: fld("parentId", T(TKeyID62)), Foreign: "other.v1.Parent"}}
+		case 5: // one key carrying several markers
+			return []*EntityKey{{Field: fld(id, T(TKeyID62)), Primary: tr(true), Tenant: "account"}, {Field: fld("parentId", T(TKeyID62)), Foreign: "other.v1.Parent", Tenant: "org"}}
+		case 6: // shard key that is not primary, declared after the primary key
+			return []*EntityKey{{Field: fld(id, T(TKeyID62)), Primary: tr(true)}, {Field: fld("tenantId", T(TKeyID62)), ShardKey: true, Tenant: "account"}}
+		case 7: // shard key first, and a primary key that is also a shard key
+			return []*EntityKey{{Field: fld("regionId", T(TKeyID62)), ShardKey: true}, {Field: fld(id, T(TKeyID62)), Primary: tr(true), ShardKey: true}}
 		}
 		return nil
 	}
@@ -364,7 +379,7 @@ func EntityCases(thorough bool) []*Case {
 			out = append(out, c)
 		}
 	}
-	lim := []int{6, 5, 3, 3, 3, 3, 3, 4}
+	lim := []int{6, 8, 3, 3, 3, 3, 3, 4}
 	get := func(d *dims, i int) *int {
 		return []*int{&d.name, &d.keys, &d.data, &d.statuses, &d.events, &d.summaries, &d.commands, &d.query}[i]
 	}
@@ -386,7 +401,7 @@ func EntityCases(thorough bool) []*Case {
 	}
 	if thorough {
 		for a := 0; a < 6; a++ {
-			for b := 0; b < 5; b++ {
+			for b := 0; b < 8; b++ {
 				for c := 0; c < 3; c++ {
 					for e := 0; e < 3; e++ {
 						for s := 0; s < 3; s++ {
